@@ -1044,8 +1044,8 @@ func TestVerifC36(t *testing.T) {
 		projs = []c36Proj{
 			{name: "mem+threads", mem: all(4), thr: all(4), cpu: []int{0}, set: []int{0}, numCPUs: []int{2}, expandGroups: 3, maxGroups: 4, maxDepth: 3, seqLen: 5},
 			{name: "cpu+cpuset", mem: []int{0}, thr: []int{0}, cpu: all(5), set: all(4), numCPUs: []int{2}, expandGroups: 3, maxGroups: 4, maxDepth: 3, seqLen: 5},
-			{name: "cpu+cpuset/4cpus", mem: []int{0}, thr: []int{0}, cpu: all(5), set: all(4), numCPUs: []int{4}, expandGroups: 3, maxGroups: 4, maxDepth: 3, seqLen: 4},
 			{name: "mixed", mem: []int{0, 1, 2}, thr: []int{0, 1}, cpu: []int{0, 1, 3}, set: []int{0, 1, 2}, numCPUs: []int{2}, expandGroups: 2, maxGroups: 3, maxDepth: 3, seqLen: 4},
+			{name: "cpu+cpuset/4cpus", mem: []int{0}, thr: []int{0}, cpu: all(5), set: all(4), numCPUs: []int{4}, expandGroups: 2, maxGroups: 3, maxDepth: 3, seqLen: 4},
 		}
 	} else {
 		projs = []c36Proj{
